@@ -366,7 +366,88 @@ fn body_op<'a, T: Opcode<'a>>(t: &mut T, name: &str) {
     }
 }
 
+/// locals campaign on a module wrapped in a component: FunctionModifier on comp.modules[0] and
+/// ComponentIterator::add_local
+fn run_case_comp(case: &J) -> J {
+    use wirm::iterator::component_iterator::ComponentIterator;
+    use wirm::Component;
+    let mbytes = base_module(&case["base"]);
+    let mut ev = json!({"t":"content","id":case["id"],"base":case["base"]});
+    ev["obs0"] = decode(&mbytes).unwrap_or_else(|e| json!({"error":e}));
+    let mut c = wasm_encoder::Component::new();
+    c.section(&wasm_encoder::RawSection { id: wasm_encoder::ComponentSectionId::CoreModule as u8, data: &mbytes });
+    let cbytes = leak(c.finish());
+    let mut comp = match guarded(|| Component::parse(cbytes, false)) {
+        Ok(Ok(c)) => c,
+        other => {
+            ev["skip"] = json!(format!("base component parse: {:?}", other.err()));
+            return ev;
+        }
+    };
+    let nimp = 1u32;
+    let mut trace = vec![];
+    for op in case["prog"].as_array().cloned().unwrap_or_default() {
+        let mut rec = op.clone();
+        let r: Result<J, String> = guarded(|| {
+            let f = op["f"].as_u64().unwrap() as u32;
+            let fid = FunctionID(nimp + f - 1);
+            let ty = dt(op["ty"].as_str().unwrap());
+            let id = match op["via"].as_str().unwrap_or("modifier") {
+                "modifier" => {
+                    let mut fm: FunctionModifier = comp.modules[0].functions.get_fn_modifier(fid).unwrap();
+                    *fm.add_local(ty)
+                }
+                _ => {
+                    let mut it = ComponentIterator::new(&mut comp, std::collections::HashMap::new());
+                    loop {
+                        if let (Location::Component { func_idx, .. }, _) = it.curr_loc() {
+                            if func_idx == fid {
+                                break;
+                            }
+                        }
+                        if it.next().is_none() {
+                            panic!("harness: function not reached");
+                        }
+                    }
+                    *it.add_local(ty)
+                }
+            };
+            json!(id)
+        });
+        match r {
+            Ok(v) => {
+                rec["panic"] = json!(false);
+                rec["ret"] = v;
+            }
+            Err(m) => {
+                rec["panic"] = json!(true);
+                rec["msg"] = json!(m);
+                rec["ret"] = json!(-1);
+            }
+        }
+        trace.push(rec);
+    }
+    ev["prog"] = json!(trace);
+    match guarded(|| comp.modules[0].encode()) {
+        Ok(o) => {
+            ev["encode_panic"] = json!(false);
+            let v = validate(&o);
+            ev["valid"] = json!(v.is_ok());
+            ev["err"] = json!(v.err().unwrap_or_default());
+            ev["obs"] = decode(&o).unwrap_or_else(|e| json!({"error":e}));
+        }
+        Err(m) => {
+            ev["encode_panic"] = json!(true);
+            ev["msg"] = json!(m);
+        }
+    }
+    ev
+}
+
 fn run_case(case: &J) -> J {
+    if case["base"]["comp"] == true {
+        return run_case_comp(case);
+    }
     let bytes = leak(base_module(&case["base"]));
     let mut ev = json!({"t":"content","id":case["id"],"base":case["base"]});
     ev["obs0"] = decode(bytes).unwrap_or_else(|e| json!({"error":e}));
